@@ -209,6 +209,8 @@ doc_strategy = st.fixed_dictionaries({
     # older documents keep source images in a "src" section that the reader re-files under the variant's binary arches: the second
     # image of the pair sits there, and the section is listed FIRST among the variant's arches
     "src_first": st.booleans(),
+    # 'format' is optional in a record (the reader takes "iso"): the pair is spelled without it, the files named as producers name them
+    "omit_format": st.integers(0, 3).map(lambda i: i == 0),
 })
 
 
@@ -221,19 +223,30 @@ def doc_case(case):
         b[k] = a[k]
     b["path"] = a["path"] + ".second"
     b["checksums"] = {"sha256": "ZZZZZZ"} if case["different_checksums"] else dict(a["checksums"])
+    real_rec_doc = imm.rec_doc
+    if case.get("omit_format"):
+        a["format"] = b["format"] = "iso"
+        a["path"], b["path"] = "images/disc1.iso", "images/disc1.qcow2"
+
+        def rec_doc(rec):
+            d = real_rec_doc(rec)
+            d.pop("format", None)
+            return d
+    else:
+        rec_doc = real_rec_doc
     images = {}
     expected_n = 2
     if case.get("src_first") and vt(case["version"]) <= (1, 1):
         (va, aa), (vb, _) = case["cell_a"], case["cell_b"]
         if va != vb:
-            images[va] = {aa: [imm.rec_doc(a)]}                                  # read first
-            images[vb] = {"src": [imm.rec_doc(b)], "x86_64": []}                  # then the source image, re-filed under x86_64
+            images[va] = {aa: [rec_doc(a)]}                                  # read first
+            images[vb] = {"src": [rec_doc(b)], "x86_64": []}                  # then the source image, re-filed under x86_64
         else:
-            images[vb] = {"src": [imm.rec_doc(a), imm.rec_doc(b)], "x86_64": []}  # both are source images of one variant
+            images[vb] = {"src": [rec_doc(a), rec_doc(b)], "x86_64": []}  # both are source images of one variant
         expected_n = 2
     else:
         for rec, (variant, arch) in ((a, case["cell_a"]), (b, case["cell_b"])):
-            images.setdefault(variant, {}).setdefault(arch, []).append(imm.rec_doc(rec))
+            images.setdefault(variant, {}).setdefault(arch, []).append(rec_doc(rec))
     header = {"version": case["version"]}
     if vt(case["version"]) >= (1, 1):
         header["type"] = "productmd.images"
@@ -245,7 +258,7 @@ def doc_case(case):
         try:
             im.loads(json.dumps(doc))
         except Exception:  # noqa  ("rejected on load": the exception type is not constrained)
-            return {"nontrivial": True, "labels": ["rejected", "v" + case["version"]] + (["src-section-first"] if case.get("src_first") and vt(case["version"]) <= (1, 1) else [])}
+            return {"nontrivial": True, "labels": ["rejected", "v" + case["version"]] + (["src-section-first"] if case.get("src_first") and vt(case["version"]) <= (1, 1) else []) + (["format-left-out"] if case.get("omit_format") else [])}
         raise Violation("colliding-document-loaded", "a %s document with two images of equal identity %r and different checksums was loaded" % (
             case["version"], ident(a)))
     must("load-legal-document", im.loads, json.dumps(doc))
